@@ -110,9 +110,9 @@ func checkC06(c *Check) {
 }
 
 func checkC11(c *Check) {
-	c.Explain = "Decides on all 32 instantiations of the runtime template and peg.peg.go: R-parse-verdict (parse returns nil only on the true edge of the entry rule's result and otherwise &parseError{p, maxToken}; the entry index is rule[0] or 1), R-maxtoken (the error token is replaced only by a non-empty token that reaches strictly further, hence it is the first token reaching the furthest offset, built from add's own arguments and the current position), R-cursor (in translatePositions every advance of the cursor over the sorted offsets is dominated by the store of that offset's translation or by equality with the key just stored, and the function returns only after the sweep — so both the begin and the end offset of the error are translated), R-rune (Error() quotes the []rune buffer sliced by the token's begin/end; no string is ever indexed by an offset). R-linecol-order (the line and column recorded for an offset are those of the character at that offset: computed from values defined before that iteration's newline test). NOT decided (value-level): the remaining line/column arithmetic (initial values, increments) and bounds of the slice in Error()."
+	c.Explain = "Decides on all 32 instantiations of the runtime template and peg.peg.go: R-parse-verdict (parse returns nil only on the true edge of the entry rule's result and otherwise &parseError{p, maxToken}; the entry index is rule[0] or 1), R-maxtoken (the error token is replaced only by a non-empty token that reaches strictly further, hence it is the first token reaching the furthest offset, built from add's own arguments and the current position), R-cursor (in translatePositions every advance of the cursor over the sorted offsets is dominated by the store of that offset's translation or by equality with the key just stored, and the function returns only after the sweep — so both the begin and the end offset of the error are translated), R-rune (Error() quotes the []rune buffer sliced by the token's begin/end; no string is ever indexed by an offset). R-linecol-order (the line and column recorded for an offset are those of the character at that offset: computed from values defined before that iteration's newline test). NOT decided (value-level): the remaining line/column arithmetic (initial values, increments) and bounds of the slice in Error(). R-translate-domain: every caller passes the sentinel-terminated p.buffer whole and the loop ranges over the parameter whole, so offsets 0..len(input) all have a translation. E5 (abstract evaluation of the instantiated source by the Go-subset interpreter; nil dereference and bounds errors are reported as panics): R-linecol-semantics — translatePositions on every text of at most 5 runes over {newline, other} plus the end symbol and every offset pair yields the definitional 1-based line and column; R-error-message — parseError.Error() on every input of at most 3 runes over {x, newline, a 3-byte rune, a quote}, every token begin ≤ end ≤ len (empty input, offset 0, end of input), Pretty on/off: rule name, line/column of both ends and exactly the runes between them quoted, no panic. The code compares runes only with newline and offsets only with each other, so the evaluated texts stand for all texts with the same newline pattern; bounded in text length."
 	c.Assume = []string{"position never exceeds the sentinel index (C13)", "positions passed to translatePositions are the begin/end of maxToken"}
-	c.Trusted = []string{"text/template/parse", "go/types, go/ssa (x/tools v0.50.0)", "the ==/!= union-find fact engine (pathfacts.go)"}
+	c.Trusted = []string{"text/template/parse", "go/types, go/ssa (x/tools v0.50.0)", "the ==/!= union-find fact engine (pathfacts.go)", "interp.go"}
 	forEachRuntime(c, func(a *aggregator, v *rtView) {
 		rtParseVerdict(a, v)
 		rtMaxToken(a, v)
@@ -128,9 +128,9 @@ func checkC11(c *Check) {
 }
 
 func checkC05(c *Check) {
-	c.Explain = "Decides only two necessary structural conditions of C05 on the 16 AST-enabled instantiations and peg.peg.go: R-rune (node.print quotes string([]rune(buffer)[n.begin:n.end]); no string is indexed by an offset anywhere in the runtime, so multi-byte input cannot shift the quoted text) and R-route (PrintSyntaxTree/WriteSyntaxTree/PrettyPrintSyntaxTree print exactly the tree returned by AST(), with the parser's own Buffer, and name each node by rul3s[its own pegRule]). R-adopt-condition (the adoption test of AST()'s stack loop only compares four offsets, so it is decided over all their orderings: a stacked token is adopted exactly when its span lies within the new token's, equal spans included). NOT decided, and said so: that the rest of the stack loop in AST() (pointer surgery, order of siblings) reconstructs every nesting correctly — its correctness depends on order relations among token bounds along the whole token sequence, and the only structural proxy would be the spelling of its comparisons (a frozen-fragment rule this design refuses to arm)."
+	c.Explain = "R-ast-semantics and R-print-semantics (E5): the instantiated source of tokens.AST and of the node printer is evaluated by the Go-subset interpreter (nil dereference and bounds errors reported as panics, anything unmodelled as undecided) on the post-order token list of every derivation shape of at most 5 nodes (thorough: 6) — leaves of width 0 or 1, optional gaps before, between and after children, parent and child with equal spans — and the returned node graph / printed text is compared with the tree of non-empty tokens (children directly nested, in input order; one line per node in pre-order, indented by depth, rule name and the quoted runes [begin,end) of a text with multi-byte runes). AST() touches offsets only through comparisons, so each shape stands for all token lists with the same order pattern of bounds. Structural rules on the 16 AST-enabled instantiations and peg.peg.go: R-rune (node.print quotes string([]rune(buffer)[n.begin:n.end]); no string is indexed by an offset anywhere in the runtime), R-route (PrintSyntaxTree/WriteSyntaxTree/PrettyPrintSyntaxTree print exactly the tree returned by AST(), with the parser's own Buffer, naming each node by rul3s[its own pegRule]), R-adopt-condition (the adoption test decided over all orderings of the four offsets it compares). NOT decided: derivations larger than the bound (no induction over depth/width)."
 	c.Assume = []string{"the token list is the post-order record of the derivation (C03)"}
-	c.Trusted = []string{"text/template/parse", "go/types, go/ssa (x/tools v0.50.0)"}
+	c.Trusted = []string{"text/template/parse", "go/types, go/ssa (x/tools v0.50.0)", "interp.go"}
 	forEachRuntime(c, func(a *aggregator, v *rtView) {
 		rtRune(a, v)
 		rtRoute(a, v)
@@ -141,6 +141,7 @@ func checkC05(c *Check) {
 				budget = 6
 			}
 			rtASTSemantics(a, v, budget)
+			rtPrintSemantics(a, v, budget-1)
 		}
 	})
 }
